@@ -64,7 +64,8 @@ class RemoveTrait(Contract):
         st = st.gset("itraits_ref", itref).gset("dict_ref", dref).gset("class_traits_ref", ctref)
         st = st.assume(self.trait != NONE_T, self.handler != NONE_T)
         self_ref = VElem(z3.Const("self_object", Val))
-        return st, [self_ref, VStr(self.name)], {}, dict(itref=itref, dref=dref, witness={"instance trait present": self.IT0[cx.box_str(self.name)] != Opt.none})
+        return st, [self_ref, VStr(self.name)], {}, dict(itref=itref, dref=dref, witness={"instance trait present": self.IT0[cx.box_str(self.name)] != Opt.none},
+                                                         concretise=lambda m: dict(harness="hastraits", family="remove_trait"))
 
     def post(self, cx, I, ov, info, kind, payload, st):
         if kind == "raise":
